@@ -10,10 +10,16 @@ Lemma sites_memo_ok : sites_memo = [
   ("ast/Expression.Evaluate", "Evaluated=true", 5%nat);
   ("ast/ExpressionAtom.Evaluate", "Evaluated=true", 5%nat);
   ("ast/Variable.Assign", "call ResetVariable", 4%nat);
+  ("ast/WorkingMemory.Reset", "range variableSnapshotMap", 1%nat);
   ("ast/WorkingMemory.Reset", "call ResetVariable", 1%nat);
+  ("ast/WorkingMemory.Reset", "range expressionSnapshotMap", 1%nat);
   ("ast/WorkingMemory.Reset", "Evaluated=false", 2%nat);
+  ("ast/WorkingMemory.Reset", "range expressionAtomSnapshotMap", 1%nat);
+  ("ast/WorkingMemory.ResetVariable", "range arr", 2%nat);
   ("ast/WorkingMemory.ResetVariable", "Evaluated=false", 2%nat);
+  ("ast/WorkingMemory.ResetAll", "range expressionSnapshotMap", 1%nat);
   ("ast/WorkingMemory.ResetAll", "Evaluated=false", 2%nat);
+  ("ast/WorkingMemory.ResetAll", "range expressionAtomSnapshotMap", 1%nat);
   ("engine/GruleEngine.ExecuteWithContext", "call ResetAll", 1%nat);
   ("engine/GruleEngine.ExecuteWithContext", "call knowledge Reset", 1%nat);
   ("engine/GruleEngine.FetchMatchingRules", "call ResetAll", 1%nat);
